@@ -473,7 +473,8 @@ class MemEngine(object):
             import os
             with open(os.path.join(os.environ.get("VERIF_REPO", "/repo"),
                                    "rig", "boot", "sark.struct"), "rb") as f:
-                text = f.read() + self.own_struct_text()
+                self.bundled_struct_text = f.read()
+                text = self.bundled_struct_text + self.own_struct_text()
             mc_kw["structs"] = rig_module(
                 "rig.machine_control.struct_file").read_struct_file(text)
             self.own = wire.parse_struct_file(text)["cfg"]
@@ -496,8 +497,20 @@ class MemEngine(object):
             n_ops = t.op_count(1, 30)
             for _ in range(n_ops):
                 t.next_segment()
-                k = t.weighted([6, 6, 2, 2, 2, 1, 1, 1, 1, 1, 1, 1])
-                if k == 11:
+                k = t.weighted([6, 6, 2, 2, 2, 1, 1, 1, 1, 1, 1, 1,
+                                1 if self.own is not None else 0])
+                if k == 12:
+                    # the caller replaces the controller's struct definitions
+                    # (another build of its software: other layout, other
+                    # base address for the struct of its own)
+                    text = self.bundled_struct_text + self.own_struct_text()
+                    mc.structs = rig_module(
+                        "rig.machine_control.struct_file").read_struct_file(
+                            text)
+                    self.own = wire.parse_struct_file(text)["cfg"]
+                    w.probe("struct_definitions_replaced")
+                    w.ops.append("mc.structs = <other definitions>")
+                elif k == 11:
                     self.op_warp_read()
                 elif k == 0:
                     self.op_write()
